@@ -31,6 +31,8 @@ func c19(w *core.World, r *core.Report) {
 	ruleSenderRetry(w, r)
 	r.Rule("R19.12", "transactional mode on a cluster target: a batch answered with MOVED, ASK or CROSSSLOT is never sent again within the run", 1)
 	ruleNoResendAfterRedirect(w, r)
+	r.Rule("R19.16", "a redirect answered to one pipelined request is not handed to the requests behind it on the connection", 1)
+	ruleRedirectStaysWithItsRequest(w, r)
 	r.Rule("R19.15", "after an ASK redirect the answer that is judged and returned is the re-sent command's own, not ASKING's", 1)
 	ruleAskReplyIsTheCommands(w, r)
 	r.Rule("R19.14", "a node has one node batch in a plain batch: a new one is opened only after every open one was compared with the node", 1)
@@ -1304,4 +1306,95 @@ func ruleAskReplyIsTheCommands(w *core.World, r *core.Report) {
 		return
 	}
 	r.Check(bad == "" && n > 0, "Cluster.handleAsk/judges-the-commands-answer", pos, "%s", bad)
+}
+
+// ---------------------------------------------------------------- R19.16 a redirect stays with the request it was answered to
+
+// ruleRedirectStaysWithItsRequest: a node pipeline keeps several requests in
+// flight on one connection. When the head request is answered with an error the
+// connection is given up and the requests behind it are failed. What they are
+// failed with must not be the target's reply to the head request: a MOVED / ASK
+// handed to a transaction behind the redirected one makes it follow the
+// redirect and run again, although the node may already have executed it. In
+// the fail-all loop of the pipeline, the error handed on is either one the path
+// has tested not to be a reply of the target (errors.As(…, *RedisError) false),
+// or a new error that does not wrap it.
+func ruleRedirectStaysWithItsRequest(w *core.World, r *core.Report) {
+	f := fn(w, r, "(*pkg/redis/client/cluster.nodePipeline).run")
+	if f == nil {
+		return
+	}
+	isAsRedisErr := func(v ssa.Value) bool {
+		c, ok := core.Unwrap(v).(*ssa.Call)
+		if !ok || core.ResolveCall(c).Name != "errors.As" || len(c.Call.Args) != 2 {
+			return false
+		}
+		target := c.Call.Args[1]
+		if mi, isMI := target.(*ssa.MakeInterface); isMI {
+			target = mi.X
+		}
+		return strings.Contains(target.Type().String(), "RedisError")
+	}
+	n := 0
+	for _, g := range core.DeepFuncs(f) {
+		// the fail-all loop: complete(nil, e) called in a loop of g
+		var sites []*ssa.Call
+		for _, in := range core.OwnInstrs(g) {
+			c, ok := in.(*ssa.Call)
+			if !ok || !strings.HasSuffix(core.ResolveCall(c).Name, "nodePipelineRequest).complete") || core.LoopHeadOf(c.Block()) == nil {
+				continue
+			}
+			sites = append(sites, c)
+		}
+		if len(sites) == 0 {
+			continue
+		}
+		bad := ""
+		var pos token.Pos = g.Pos()
+		okEnum := core.EnumPathsN(g.Blocks[0], 0, 100000, 2, func(p *core.Path) {
+			if bad != "" {
+				return
+			}
+			for _, in := range p.Instrs {
+				c, ok := in.(*ssa.Call)
+				if !ok {
+					continue
+				}
+				is := false
+				for _, s := range sites {
+					if s == c {
+						is = true
+					}
+				}
+				if !is || len(c.Call.Args) < 3 {
+					continue
+				}
+				n++
+				e := core.Unwrap(p.Resolve(c.Call.Args[2]))
+				switch x := e.(type) {
+				case *ssa.Call:
+					if core.ResolveCall(x).Name == "fmt.Errorf" {
+						if format, isC := core.ConstString(x.Call.Args[0]); isC && !strings.Contains(format, "%w") {
+							continue // a new error that does not wrap the reply
+						}
+					}
+				case *ssa.Const:
+					continue
+				}
+				if pathAssumed(p, isAsRedisErr, false) {
+					continue // tested: not a reply of the target (a network error)
+				}
+				bad, pos = "the requests behind a failed one are completed with an error that may be the target's reply to that request (a MOVED/ASK): they follow a redirect that was not theirs and are sent again", c.Pos()
+			}
+		})
+		if !okEnum {
+			r.Undecided("nodePipeline.run/redirect-stays-with-its-request", g.Pos(), "too many paths")
+			continue
+		}
+		if bad != "" {
+			r.Fail("nodePipeline.run/redirect-stays-with-its-request", pos, "%s", bad)
+			return
+		}
+	}
+	r.Check(n > 0, "nodePipeline.run/redirect-stays-with-its-request", f.Pos(), "the loop that fails the requests in flight was not found")
 }
